@@ -21,8 +21,9 @@ def run(replay=None):
     rnd = rng('c09')
     rec = Recorder(rep, rnd, 64 if thorough else 32)
     texts = family_texts(list(FAMS + (['bool22'] if thorough else [])) + [('rand', 8000, 5) if thorough else ('rand', 1500, 4)], rep, rnd, cap=None if thorough else 3000)
+    texts += [('vacuous', 'True'), ('vacuous', 'False'), ('vacuous', '( False )'), ('vacuous', 'not True'), ('vacuous', 'p and False')]
     for fam, text, entry, obj in parse_inputs(texts, ('expression', 'condition'), boolean_only=True):
-        if entry == 'condition' and rnd.random() > 0.25:
+        if entry == 'condition' and fam != 'vacuous' and rnd.random() > 0.25:
             continue
         rec.split_and(text, obj)
     for i, clause in rec.validate(canary):
